@@ -142,17 +142,21 @@ theorem tvStep_step {nd : Node} (c : Cfg) (inv : NodeInv nd) (op : Op) (hr : op.
   | tagValue tk v => exact tvStep_genTagValueID c nd tk v
   | series sh m ts tags => exact tvStep_genSeries c nd sh m ts tags
   | metaPrepare =>
-    refine ⟨Nat.le_refl _, ?_⟩
-    intro tk v j h
-    have h' : nd.tagValue.prepareFlush.lookup tk v = some j := h
-    rw [lookup_prepare] at h'; exact Or.inl h'
+    obtain ⟨_, v, _, sm, _⟩ := metaPrepareE_spec inv.md c.prepareSwapsEmpty
+    refine ⟨by show nd.seqMem.tagValue ≤ (nd.metaPrepareE c.prepareSwapsEmpty).seqMem.tagValue; rw [sm]; exact Nat.le_refl _, ?_⟩
+    intro tk v' j h
+    have h' : (nd.metaPrepareE c.prepareSwapsEmpty).mview (.tagValue tk v') = some j := h
+    rw [v] at h'; exact Or.inl h'
   | metaFlush =>
     obtain ⟨a, b⟩ := metaFlushPrefix_tv inv.md 5
     refine ⟨by show nd.seqMem.tagValue ≤ (nd.metaFlushPrefix 5).seqMem.tagValue; rw [a]; exact Nat.le_refl _, ?_⟩
     intro tk v j h
     have h' : (nd.metaFlushPrefix 5).tagValue.lookup tk v = some j := h
     rw [b] at h'; exact Or.inl h'
-  | indexPrepare sh => exact tvStep_setShard _ _ _
+  | indexPrepare sh =>
+    show TvStep nd (nd.indexPrepareE sh c.prepareSwapsEmpty)
+    unfold Node.indexPrepareE
+    cases c.prepareSwapsEmpty <;> exact tvStep_of_eq rfl rfl
   | indexFlush sh => exact tvStep_setShard _ _ _
   | reopen => cases hr
   | metaFlushCrash k => cases hr
@@ -265,6 +269,17 @@ theorem idx_layers_prepare {nd : Node} {a : Nat} (h : IdxTvBelow nd a) (shard : 
     IdxTvBelow (nd.indexPrepare shard) a :=
   idx_setShard h shard _ (fun p hp => (layers_prepare_all _ _).1 hp) (fun q hq => (layers_prepare_all _ _).1 hq)
 
+theorem idx_indexDropEmpty {nd : Node} {a : Nat} (h : IdxTvBelow nd a) (shard : Nat) :
+    IdxTvBelow (nd.indexDropEmpty shard) a :=
+  idx_setShard h shard _ (fun p hp => (layers_dropEmpty_all _ _).1 hp) (fun q hq => (layers_dropEmpty_all _ _).1 hq)
+
+theorem idx_indexPrepareE {nd : Node} {a : Nat} (h : IdxTvBelow nd a) (shard : Nat) (se : Bool) :
+    IdxTvBelow (nd.indexPrepareE shard se) a := by
+  unfold Node.indexPrepareE
+  cases se with
+  | false => simpa using idx_layers_prepare h shard
+  | true => simpa using idx_layers_prepare (idx_indexDropEmpty h shard) shard
+
 theorem flushSteps_inv_fwd (sh : Shard) (k : Nat) :
     (∀ p, p ∈ ((List.range k).foldl Shard.flushStep sh).inv.all → p ∈ sh.inv.all) ∧
     (∀ q, q ∈ ((List.range k).foldl Shard.flushStep sh).fwd.all → q ∈ sh.fwd.all) := by
@@ -353,14 +368,23 @@ theorem wtInv_step {c : Cfg} (hc : c.seqWriteThrough = true) {nd : Node} (inv : 
         · have f := frame ((nd.shards sh).created m ts ((nd.shards sh).createSeriesID m)) rfl rfl
           obtain ⟨a, b⟩ := idx_buildInverted hc sh m ((nd.shards sh).createSeriesID m) tags _ (metaInv_setShard inv.md _ _) f.synced f.idx
           exact ⟨a, b⟩
-  | metaPrepare => exact ⟨w.synced, w.idx⟩
+  | metaPrepare =>
+    obtain ⟨_, _, sh, sm, sp⟩ := metaPrepareE_spec inv.md c.prepareSwapsEmpty
+    refine ⟨by show (nd.metaPrepareE c.prepareSwapsEmpty).seqMmap = (nd.metaPrepareE c.prepareSwapsEmpty).seqMem; rw [sm, sp]; exact w.synced, ?_⟩
+    show IdxTvBelow (nd.metaPrepareE c.prepareSwapsEmpty) (nd.metaPrepareE c.prepareSwapsEmpty).seqMem.tagValue
+    rw [sm]; exact idxTvBelow_shards w.idx sh
   | metaFlush =>
     obtain ⟨a, b⟩ := metaFlushPrefix_seq nd 5 w.synced
     obtain ⟨_, _, _, s, _⟩ := metaFlushPrefix_spec inv.md 5
     refine ⟨a, ?_⟩
     show IdxTvBelow (nd.metaFlushPrefix 5) (nd.metaFlushPrefix 5).seqMem.tagValue
     rw [b]; exact idxTvBelow_shards w.idx s
-  | indexPrepare sh => exact ⟨w.synced, idx_layers_prepare w.idx sh⟩
+  | indexPrepare sh =>
+    have e : (nd.indexPrepareE sh c.prepareSwapsEmpty).seqMem = nd.seqMem ∧ (nd.indexPrepareE sh c.prepareSwapsEmpty).seqMmap = nd.seqMmap := by
+      unfold Node.indexPrepareE; cases c.prepareSwapsEmpty <;> exact ⟨rfl, rfl⟩
+    refine ⟨by show (nd.indexPrepareE sh c.prepareSwapsEmpty).seqMmap = (nd.indexPrepareE sh c.prepareSwapsEmpty).seqMem; rw [e.1, e.2]; exact w.synced, ?_⟩
+    show IdxTvBelow (nd.indexPrepareE sh c.prepareSwapsEmpty) (nd.indexPrepareE sh c.prepareSwapsEmpty).seqMem.tagValue
+    rw [e.1]; exact idx_indexPrepareE w.idx sh _
   | indexFlush sh => exact ⟨w.synced, idx_indexFlushPrefix w.idx sh 4⟩
   | reopen =>
     refine ⟨rfl, ?_⟩
